@@ -1,17 +1,38 @@
 #!/usr/bin/env python3
 """Development aid (not a check): which statements of /repo does a property's quick stream never execute?
-usage: covgaps.py Cxx [file-substring ...]   (needs /var/tmp/w8/cov/Cxx.txt produced by a -cover build of the harness)"""
-import re, sys
+usage: covgaps.py Cxx [file-substring ...]
+Builds the harness with statement coverage of the library (-cover -coverpkg=all) under _build/, runs the property's
+quick stream and lists the uncovered blocks with their source text (node.go / visitor.go, which the public API
+never reaches, are left out)."""
+import os, re, subprocess, sys, shutil
+sys.path.insert(0, os.path.dirname(os.path.abspath(__file__)))
+import check
 p = sys.argv[1]; subs = sys.argv[2:]
-rows = []
-for l in open('/var/tmp/w8/cov/%s.txt' % p):
+ok, msg = check.build_tools()
+assert ok, msg
+hdir = os.path.join(check.BUILD, "harness_src")
+cov = os.path.join(check.BUILD, "cov", p)
+shutil.rmtree(cov, ignore_errors=True); os.makedirs(cov + "/data"); os.makedirs(cov + "/out")
+env = check.goenv()
+subprocess.run(["go", "build", "-cover", "-coverpkg=all", "-tags", "verif", "-o", os.path.join(check.BUILD, "harness_cov"), "."], cwd=hdir, env=env, check=True)
+subprocess.run([os.path.join(check.BUILD, "harness_cov"), "-prop", p, "-tier", "quick", "-seed", "1", "-out", cov + "/out"],
+               env=dict(env, GOCOVERDIR=cov + "/data", VERIF_NO_CORPUS="1"), stdout=subprocess.DEVNULL, stderr=subprocess.DEVNULL, timeout=1800)
+pk = "github.com/woodsbury/jmespath"
+subprocess.run(["go", "tool", "covdata", "textfmt", "-i=" + cov + "/data", "-pkg=%s,%s/internal/lexer,%s/internal/parser,%s/internal/evaluator" % (pk, pk, pk, pk),
+                "-o", cov + "/profile.txt"], cwd=hdir, env=env, stdout=subprocess.DEVNULL, stderr=subprocess.DEVNULL)
+rows, total = [], 0
+for l in open(cov + "/profile.txt"):
     m = re.match(r'github.com/woodsbury/jmespath/?(\S*):(\d+)\.(\d+),(\d+)\.(\d+) (\d+) (\d+)', l)
     if not m: continue
     f, l0, c0, l1, c1, n, c = m.groups()
-    if int(c) == 0 and (not subs or any(s in f for s in subs)) and 'node.go' not in f and 'visitor.go' not in f:
+    if 'node.go' in f or 'visitor.go' in f: continue
+    total += 1
+    if int(c) == 0 and (not subs or any(s in f for s in subs)):
         rows.append((f, int(l0), int(l1)))
 src = {}
 for f, l0, l1 in sorted(rows):
-    if f not in src: src[f] = open('/repo/' + f).read().split('\n')
+    if f not in src: src[f] = open(os.path.join(check.REPO, f)).read().split('\n')
     txt = ' '.join(x.strip() for x in src[f][l0-1:min(l1, l0+2)])
     print('%s:%d-%d  %s' % (f.split('/')[-1], l0, l1, txt[:110]))
+print("%s: %d of %d blocks never executed by the quick stream" % (p, len(rows), total))
+shutil.rmtree(cov + "/out", ignore_errors=True)
